@@ -188,6 +188,10 @@ def make_converter(ty: IntoConverter, handlers: ConverterHandlers = ConverterHan
 
     if ty is t.Any or ty is type(t.Any):
         return AnyConverter(handlers)
+    if ty is None:
+        # `None` stands for its type in annotations. `typing` generics replace it themselves,
+        # builtin generics (`list[None]`), struct and tuple types don't
+        ty = type(None)
     if isinstance(ty, t.TypeVar):
         var_ty: IntoConverter
 
